@@ -119,3 +119,14 @@ package action
 //@   loop 3 invariant [default-policy] forall j int :: 0 <= j && j < #iter ==> len(executingHooks[j].DeletePolicies) > 0
 //@   loop 4 invariant [quiet4] forall m string :: !Kunwatched[m]
 //@   loop 4 invariant [nonnil4] hooksNonNil(executingHooks) && i < len(executingHooks)
+
+// ---- C13: value reuse policy (upgrade.go)
+
+//@ func (*Upgrade).reuseValues
+//@   props C13
+//@   requires u != nil && chart != nil && current != nil
+//@   ensures [reset] old(u.ResetValues) ==> err == nil && result == newVals && chart.Values == old(chart.Values)
+//@   ensures [reuse] !old(u.ResetValues) && old(u.ReuseValues) && err == nil ==> result == coalT(newVals, old(current.Config)) && chart.Values == coalV(old(current.Chart), old(current.Config))
+//@   ensures [reset-then-reuse] !old(u.ResetValues) && !old(u.ReuseValues) && old(u.ResetThenReuseValues) ==> err == nil && result == coalT(newVals, old(current.Config)) && chart.Values == old(chart.Values)
+//@   ensures [default-new] !old(u.ResetValues) && !old(u.ReuseValues) && !old(u.ResetThenReuseValues) && !(len(newVals) == 0 && old(len(current.Config)) > 0) ==> err == nil && result == newVals && chart.Values == old(chart.Values)
+//@   ensures [default-old] !old(u.ResetValues) && !old(u.ReuseValues) && !old(u.ResetThenReuseValues) && len(newVals) == 0 && old(len(current.Config)) > 0 ==> err == nil && result == old(current.Config) && chart.Values == old(chart.Values)
